@@ -161,3 +161,248 @@ Proof.
     destruct (py_int s); [|reflexivity].
     repeat match goal with |- context [if ?b then _ else _] => destruct b end; reflexivity.
 Qed.
+
+Definition accepts_kind (k : kind) (s : str) : bool := negb (validate_kind k s).
+
+Lemma kind_int : forall s, accepts_kind KInt s = xorb (lex DInt s) (kf DInt s).
+Proof.
+  intro s. unfold accepts_kind. cbn [validate_kind lex kf]. rewrite validate_int_spec, negb_involutive.
+  unfold int_ok. cbn [andb negb]. rewrite andb_true_r.
+  destruct (lex_int s), (too_many_digits s); reflexivity.
+Qed.
+
+Lemma kind_positive : forall s, accepts_kind KPositive s = xorb (lex_positive s) (lex_positive s && too_many_digits s).
+Proof.
+  intro s. unfold accepts_kind. cbn [validate_kind]. rewrite validate_int_spec, negb_involutive.
+  unfold int_ok, lex_positive. cbn [andb negb]. rewrite andb_true_r.
+  assert (E : negb (int_value s =? 0)%Z && negb (int_value s <? 0)%Z = (0 <? int_value s)%Z) by lia.
+  rewrite E. destruct (lex_int s), (too_many_digits s), (0 <? int_value s)%Z; reflexivity.
+Qed.
+
+Lemma kind_dayofmonth : forall s, accepts_kind KDayOfMonth s = xorb (lex DDayOfMonth s) (kf DDayOfMonth s).
+Proof.
+  intro s. unfold accepts_kind. cbn [validate_kind lex kf]. rewrite validate_int_spec, negb_involutive.
+  unfold int_ok, lex_dayofmonth. cbn [andb negb].
+  destruct (lex_int s), (too_many_digits s), (1 <=? int_value s)%Z, (int_value s <=? 31)%Z; reflexivity.
+Qed.
+
+(* ================================================================ the float family *)
+
+Lemma span_digits_spec : forall s ip rest, span_digits s = (ip, rest) ->
+  s = ip ++ rest /\ forallb dig ip = true /\ match rest with [] => True | c :: _ => dig c = false end.
+Proof.
+  induction s as [|c s IH]; intros ip rest H; simpl in H.
+  - inversion H; subst. repeat split.
+  - change (re_digit c) with (dig c) in H. destruct (dig c) eqn:Hc.
+    + destruct (span_digits s) as [a b] eqn:E. inversion H; subst.
+      destruct (IH a rest eq_refl) as [H1 [H2 H3]]. subst s. repeat split.
+      * simpl. rewrite Hc, H2. reflexivity.
+      * exact H3.
+    + inversion H; subst. repeat split. exact Hc.
+Qed.
+
+Definition dd (c : N) : bool := dig c || (c =? 46).
+
+Lemma dig_not_dot : forall c, dig c = true -> (46 =? c) = false.
+Proof. intros c H. unfold dig in H. lia. Qed.
+
+Lemma forallb_dd_app : forall ip x, forallb dig ip = true -> forallb dd (ip ++ x) = forallb dd x.
+Proof.
+  induction ip as [|c ip IH]; intros x H; [reflexivity|]. simpl in *.
+  apply andb_prop in H. destruct H as [H1 H2]. unfold dd at 1. rewrite H1. simpl. auto.
+Qed.
+
+Lemma existsb_dig_app : forall ip x, forallb dig ip = true -> existsb dig (ip ++ x) = nonempty ip || existsb dig x.
+Proof.
+  intros ip x H. destruct ip as [|c ip]; [reflexivity|]. simpl in *.
+  apply andb_prop in H. destruct H as [H1 _]. rewrite H1. reflexivity.
+Qed.
+
+Lemma count_dots_app : forall ip x, forallb dig ip = true -> count_dots (ip ++ x) = count_dots x.
+Proof.
+  induction ip as [|c ip IH]; intros x H; [reflexivity|]. cbn [forallb] in H.
+  apply andb_prop in H. destruct H as [H1 H2]. unfold count_dots in *. cbn [app filter].
+  rewrite (dig_not_dot c H1). auto.
+Qed.
+
+Lemma dd_nodots : forall fp, forallb dd fp && (count_dots fp =? 0)%nat = forallb dig fp.
+Proof.
+  induction fp as [|c fp IH]; [reflexivity|]. unfold count_dots in *. cbn [forallb filter].
+  unfold dd at 1. destruct (dig c) eqn:Hc.
+  - rewrite (dig_not_dot c Hc). cbn [orb andb]. exact IH.
+  - cbn [orb andb]. destruct (c =? 46) eqn:E.
+    + apply N.eqb_eq in E. subst c. rewrite N.eqb_refl. cbn [length Nat.eqb]. apply andb_false_r.
+    + reflexivity.
+Qed.
+
+Lemma existsb_dig_all : forall fp, forallb dig fp = true -> existsb dig fp = nonempty fp.
+Proof.
+  intros fp H. destruct fp as [|c fp]; [reflexivity|]. simpl in *. apply andb_prop in H. destruct H as [H _].
+  rewrite H. reflexivity.
+Qed.
+
+Lemma forallb_dd_of_dig : forall l, forallb dig l = true -> forallb dd l = true.
+Proof.
+  intros l H. apply forallb_forall. intros x Hx. rewrite forallb_forall in H. unfold dd. rewrite (H x Hx). reflexivity.
+Qed.
+
+Lemma after_dot_app : forall ip x, forallb dig ip = true -> after_dot (ip ++ x) = after_dot x.
+Proof.
+  induction ip as [|c ip IH]; intros x H; [reflexivity|]. simpl in *.
+  apply andb_prop in H. destruct H as [H1 H2].
+  assert (E : (c =? 46) = false) by (unfold dig in H1; lia). rewrite E. auto.
+Qed.
+
+Lemma filter_dig_app : forall ip x, forallb dig ip = true -> filter dig (ip ++ x) = ip ++ filter dig x.
+Proof. intros ip x H. rewrite filter_app, (filter_all _ dig ip H). reflexivity. Qed.
+
+Lemma after_dot_digits : forall l, forallb dig l = true -> after_dot l = [].
+Proof. intros l H. pose proof (after_dot_app l [] H) as E. rewrite app_nil_r in E. exact E. Qed.
+
+Lemma count_dots_digits : forall l, forallb dig l = true -> count_dots l = 0%nat.
+Proof. intros l H. pose proof (count_dots_app l [] H) as E. rewrite app_nil_r in E. exact E. Qed.
+
+Lemma after_dot_unsigned : forall s, after_dot s = after_dot (opt_minus s).
+Proof.
+  intro s. destruct (opt_minus_cases s) as [[r [Hs [Hu _]]] | [Hu _]]; rewrite Hu; [subst s|]; reflexivity.
+Qed.
+
+Lemma filter_dig_unsigned : forall s, filter dig s = filter dig (opt_minus s).
+Proof.
+  intro s. destruct (opt_minus_cases s) as [[r [Hs [Hu _]]] | [Hu _]]; rewrite Hu; [subst s|]; reflexivity.
+Qed.
+
+Lemma float_const : FLOAT_OVERFLOW = FLOAT_INF.
+Proof. reflexivity. Qed.
+
+Lemma ltb_leb : forall a b : N, (a <? b) = negb (b <=? a).
+Proof. intros. lia. Qed.
+
+Lemma validate_float_spec : forall s, validate_float s = negb (lex_float s && negb (float_overflows s)).
+Proof.
+  intro s. unfold validate_float, layout_float_parts, lex_float, float_overflows, float_is_finite.
+  rewrite after_dot_unsigned, filter_dig_unsigned, float_const. change (unsigned s) with (opt_minus s).
+  fold dd. change dec_digits with num. change re_digit with dig.
+  set (F := FLOAT_INF). clearbody F.
+  destruct (span_digits (opt_minus s)) as [ip rest] eqn:E.
+  apply span_digits_spec in E. destruct E as [Hu [Hip Hrest]]. rewrite Hu. clear Hu.
+  destruct rest as [|c fp].
+  - rewrite !app_nil_r. destruct ip as [|c ip]; [reflexivity|].
+    rewrite (forallb_dd_of_dig _ Hip), (existsb_dig_all _ Hip), (filter_all _ dig _ Hip).
+    rewrite (after_dot_digits _ Hip), (count_dots_digits _ Hip).
+    cbn [nonempty Nat.leb andb after_dot]. rewrite ltb_leb, ?app_nil_r. reflexivity.
+  - rewrite (forallb_dd_app ip (c :: fp) Hip), (existsb_dig_app ip (c :: fp) Hip), (count_dots_app ip (c :: fp) Hip).
+    rewrite (after_dot_app ip (c :: fp) Hip), (filter_dig_app ip (c :: fp) Hip).
+    cbn [forallb existsb after_dot filter]. unfold dd at 1. rewrite Hrest. cbn [orb].
+    destruct (c =? 46) eqn:Ec.
+    + apply N.eqb_eq in Ec. subst c. unfold count_dots. cbn [filter N.eqb Pos.eqb length andb].
+      fold (count_dots fp).
+      assert (El : (S (count_dots fp) <=? 1)%nat = (count_dots fp =? 0)%nat) by (destruct (count_dots fp); reflexivity).
+      rewrite El.
+      destruct (forallb dig fp) eqn:Hfp.
+      * rewrite (filter_all _ dig fp Hfp), (existsb_dig_all fp Hfp).
+        assert (Ed : forallb dd fp && (count_dots fp =? 0)%nat = true) by (rewrite dd_nodots; exact Hfp).
+        apply andb_prop in Ed. destruct Ed as [Ed1 Ed2]. rewrite Ed1, Ed2.
+        destruct ip as [|c ip]; cbn [nonempty orb andb is_nil negb].
+        -- destruct fp as [|c fp]; [reflexivity|]. cbn [nonempty is_nil negb andb]. rewrite ltb_leb. reflexivity.
+        -- rewrite ltb_leb. reflexivity.
+      * assert (Ed : forallb dd fp && (count_dots fp =? 0)%nat = false) by (rewrite dd_nodots; exact Hfp).
+        assert (Ez : forallb dd fp && (nonempty ip || existsb dig fp) && (count_dots fp =? 0)%nat = false).
+        { destruct (forallb dd fp), (count_dots fp =? 0)%nat, (nonempty ip || existsb dig fp); try reflexivity; discriminate. }
+        rewrite Ez. rewrite andb_false_r. destruct ip; reflexivity.
+    + cbn [andb]. destruct ip; reflexivity.
+Qed.
+
+Lemma kind_float : forall s, accepts_kind KFloat s = xorb (lex_float s) (lex_float s && float_overflows s).
+Proof.
+  intro s. unfold accepts_kind. cbn [validate_kind]. rewrite validate_float_spec, negb_involutive.
+  destruct (lex_float s), (float_overflows s); reflexivity.
+Qed.
+
+(* ================================================================ char, Boolean, String, codes *)
+
+Lemma kind_string : forall s, s <> [] -> accepts_kind KString s = xorb (lex DString s) (kf DString s).
+Proof.
+  intros s Hne. unfold accepts_kind. cbn [validate_kind lex kf]. unfold validate_str, lex_string, has_equals, in_str.
+  destruct s as [|c s]; [congruence|]. cbn [nonempty andb].
+  destruct (existsb (N.eqb 1) (c :: s)), (existsb (N.eqb 61) (c :: s)); reflexivity.
+Qed.
+
+Lemma kind_char : forall s, s <> [] -> accepts_kind KChar s = xorb (lex DChar s) (kf DChar s).
+Proof.
+  intros s Hne. unfold accepts_kind. cbn [validate_kind lex kf]. unfold validate_str, lex_char, has_equals, in_str.
+  destruct s as [|c [|c2 r]]; [congruence| |].
+  - cbn [existsb length Nat.ltb Nat.leb orb andb]. rewrite !orb_false_r, (N.eqb_sym c 1).
+    destruct (1 =? c), (61 =? c); reflexivity.
+  - cbn [length Nat.ltb Nat.leb andb xorb].
+    destruct (existsb (N.eqb 1) (c :: c2 :: r)), (existsb (N.eqb 61) (c :: c2 :: r)); reflexivity.
+Qed.
+
+Lemma kind_boolean : forall s, s <> [] -> accepts_kind KBoolean s = lex_boolean s.
+Proof.
+  intros s Hne. unfold accepts_kind. cbn [validate_kind]. unfold validate_str, lex_boolean, in_str, mem_str.
+  destruct s as [|c [|c2 r]]; [congruence| |].
+  - cbn [existsb length Nat.ltb Nat.leb orb andb str_eqb].
+    rewrite !orb_false_r, !andb_true_r.
+    destruct (1 =? c) eqn:E1, (61 =? c) eqn:E2, (c =? 89) eqn:E3, (c =? 78) eqn:E4; try reflexivity; lia.
+  - cbn [length Nat.ltb Nat.leb].
+    destruct (existsb (N.eqb 1) (c :: c2 :: r)), (existsb (N.eqb 61) (c :: c2 :: r)); reflexivity.
+Qed.
+
+Lemma alnum_plain : forall c, alnum c = true -> (1 =? c) = false /\ (61 =? c) = false.
+Proof. intros c H. unfold alnum, dig in H. lia. Qed.
+
+Lemma alnum_no_specials : forall s, forallb alnum s = true -> in_str 1 s = false /\ in_str 61 s = false.
+Proof.
+  induction s as [|c s IH]; intro H; [split; reflexivity|]. cbn [forallb] in H.
+  apply andb_prop in H. destruct H as [H1 H2]. destruct (alnum_plain c H1) as [A B]. destruct (IH H2) as [C D].
+  unfold in_str in *. cbn [existsb]. rewrite A, B, C, D. split; reflexivity.
+Qed.
+
+Lemma exists_non_alnum : forall s, existsb (fun c => negb (re_alnum c)) s = negb (forallb alnum s).
+Proof.
+  induction s as [|c s IH]; [reflexivity|]. cbn [existsb forallb]. rewrite IH. change (re_alnum c) with (alnum c).
+  destruct (alnum c), (forallb alnum s); reflexivity.
+Qed.
+
+Lemma validate_code : forall n s, s <> [] ->
+  negb (validate_str (Some n) None true s) = lex_code n s.
+Proof.
+  intros n s Hne. unfold validate_str, lex_code. rewrite exists_non_alnum.
+  assert (El : (n <? length s)%nat = negb (length s <=? n)%nat) by lia.
+  rewrite El. destruct s as [|c s]; [congruence|]. cbn [nonempty andb].
+  destruct (forallb alnum (c :: s)) eqn:Ha.
+  - destruct (alnum_no_specials _ Ha) as [A B]. rewrite A, B.
+    destruct (length (c :: s) <=? n)%nat; reflexivity.
+  - cbn [negb andb]. rewrite andb_false_r.
+    destruct (in_str 1 (c :: s)), (in_str 61 (c :: s)), (length (c :: s) <=? n)%nat; reflexivity.
+Qed.
+
+(* ================================================================ MultipleValueString *)
+
+Lemma split_on_nonnil : forall c s, split_on c s <> [].
+Proof.
+  intros c s. destruct s as [|x s]; simpl; [discriminate|].
+  destruct (N.eqb x c); [discriminate|]. destruct (split_on c s); discriminate.
+Qed.
+
+Lemma split_values : forall s,
+  existsb is_nil (split_on 32 s) = negb (values_ok true s)
+  /\ existsb is_nil (tl (split_on 32 s)) = negb (values_ok false s).
+Proof.
+  induction s as [|c s [IH1 IH2]]; [split; reflexivity|].
+  cbn [split_on values_ok]. destruct (c =? 32) eqn:E.
+  - cbn [existsb is_nil tl negb andb orb]. split; [reflexivity|]. exact IH1.
+  - destruct (split_on 32 s) as [|p ps] eqn:Es; [exfalso; exact (split_on_nonnil 32 s Es)|].
+    cbn [existsb is_nil tl orb] in *. split; exact IH2.
+Qed.
+
+Lemma kind_multi : forall s, s <> [] ->
+  accepts_kind KMulti s = xorb (lex DMultipleValueString s) (kf DMultipleValueString s).
+Proof.
+  intros s Hne. unfold accepts_kind. cbn [validate_kind lex kf]. unfold lex_multi.
+  destruct (split_values s) as [E _]. rewrite E.
+  unfold validate_str, lex_string, has_equals, in_str.
+  destruct s as [|c s]; [congruence|]. cbn [nonempty andb].
+  destruct (existsb (N.eqb 1) (c :: s)), (existsb (N.eqb 61) (c :: s)), (values_ok true (c :: s)); reflexivity.
+Qed.
